@@ -342,6 +342,14 @@ def run_core(ctx, c, invariants, properties, obs, rand_count, rand_depth, rand_l
     return rows, bad
 
 
+def run_jobs(jobs, width=3):
+    """Run independent components of a check side by side (each is a closure calling run_core)."""
+    import concurrent.futures
+    with concurrent.futures.ThreadPoolExecutor(max_workers=width) as pool:
+        for f in [pool.submit(j) for j in jobs]:
+            f.result()
+
+
 def replay_core(ctx, path, c, obs):
     """Re-execute a recorded failing behaviour on the current tree and validate it again."""
     with open(path) as fh:
@@ -393,20 +401,47 @@ def parse_dot_edges(path):
     return nodes, edges, inits
 
 
-def validate_core_trace(ctx, c, trace_path, max_loggers, name="core-trace"):
+def validate_core_trace(ctx, c, trace_path, max_loggers, name="core-trace", parts=4):
+    """TLC validates the recording against LoggCoreTrace.  A long recording is cut at behaviour boundaries
+    (Reset lines) into up to `parts` pieces validated by TLC processes running side by side."""
     tc = consts_for_tlc(c)
     tc["TraceFile"] = "trace.ndjson"
     mct, cfg = gen_mc("MCT", "LoggCoreTrace", tc,
                       ["SPECIFICATION TSpec", "INVARIANTS Done TOneFormat TTreeOK", "CHECK_DEADLOCK FALSE"],
                       plain=dict(MaxLoggers=max(max_loggers, c["max_loggers"]) + 64, InitLevel=c["init_level"], MaxList=1000, MaxArgs=0, MaxSaved=100000, MaxHandlers=100000, FileBase=41))
-    r = ctx.tlc("MCT", "MCT.cfg", files={"MCT.tla": mct, "MCT.cfg": cfg}, copy={trace_path: "trace.ndjson"},
-                workers=1, name=name, timeout=3000, heap="12g", allow_fail=True)
-    if r.invariant_violated:
-        # the model's own invariant failed on a state the implementation visited
-        raise Undecided("trace run: invariant %s violated on a recorded behaviour:\n%s" % (r.invariant_violated, r.out[-3000:]))
-    if not r.ok:
-        raise Undecided("trace validation run failed:\n" + r.out[-5000:])
-    res = r.prints("bad")
-    if len(res) != 1:
-        raise Undecided("trace validation did not reach the end of the log:\n" + r.out[-3000:])
-    return sorted(res[0], key=lambda b: b["line"])
+    with open(trace_path) as fh:
+        lines = fh.readlines()
+    resets = [i for i, ln in enumerate(lines) if ln.startswith('{"op":"Reset"')]
+    cuts = [0]
+    if len(lines) > 4000 and parts > 1:
+        target = len(lines) / float(parts)
+        for i in resets:
+            if i - cuts[-1] >= target and len(cuts) < parts:
+                cuts.append(i)
+    cuts.append(len(lines))
+    pieces = [(cuts[k], cuts[k + 1]) for k in range(len(cuts) - 1) if cuts[k + 1] > cuts[k]]
+
+    def one(k, lo, hi):
+        tp = trace_path
+        if len(pieces) > 1:
+            tp = "%s.part%d" % (trace_path, k)
+            with open(tp, "w") as fh:
+                fh.writelines(lines[lo:hi])
+        r = ctx.tlc("MCT", "MCT.cfg", files={"MCT.tla": mct, "MCT.cfg": cfg}, copy={tp: "trace.ndjson"},
+                    workers=1, name=name + ("-p%d" % k if len(pieces) > 1 else ""), timeout=3000, heap="12g", allow_fail=True)
+        if r.invariant_violated:
+            # the model's own invariant failed on a state the implementation visited
+            raise Undecided("trace run: invariant %s violated on a recorded behaviour:\n%s" % (r.invariant_violated, r.out[-3000:]))
+        if not r.ok:
+            raise Undecided("trace validation run failed:\n" + r.out[-5000:])
+        res = r.prints("bad")
+        if len(res) != 1:
+            raise Undecided("trace validation did not reach the end of the log:\n" + r.out[-3000:])
+        return [dict(b, line=b["line"] + lo) for b in res[0]]
+
+    import concurrent.futures
+    bad = []
+    with concurrent.futures.ThreadPoolExecutor(max_workers=len(pieces) or 1) as pool:
+        for f in [pool.submit(one, k, lo, hi) for k, (lo, hi) in enumerate(pieces)]:
+            bad += f.result()
+    return sorted(bad, key=lambda b: b["line"])
